@@ -830,6 +830,8 @@ class LogVal:
             q = self.q
         elif c.denominator == 1:
             q = self.q ** c.numerator
+        elif c.denominator == 2:
+            q = self.q.sqrt() ** c.numerator  # exact: a fresh r >= 0 with r*r == q
         else:
             raise HarnessError(f"LogVal with q != 1 scaled by non-integer {c}")
         return LogVal(coef, q)
